@@ -307,6 +307,24 @@ for it in range(nframes):
                 origin = dyadic((3,)) if exact else rng.normal(size=3)
                 cs.origin = origin
             chk.count(cs_history=['j_hat re-assigned', 'i_hat and j_hat re-assigned', 'origin re-assigned'][what_])
+            if rng.random() < 0.5:
+                # ... and REFUSED assignments in between (a non-unit vector, a vector with two components): each raises and leaves
+                # the frame as it was
+                for attr_, bad_ in (("i_hat", 1.5 * np.asarray(i_hat)), ("j_hat", np.array([0.0, 1.0])), ("origin", np.array([1.0, 2.0])),
+                                    ("j_hat", 0.25 * np.asarray(j_hat))):
+                    try:
+                        setattr(cs, attr_, bad_)
+                        refused_ = False
+                    except Exception:      # noqa: BLE001
+                        refused_ = True
+                    chk.count(cs_refused_assignment=f"{attr_}: {'raised' if refused_ else 'accepted'}")
+                    if not refused_:
+                        setattr(cs, attr_, {"i_hat": i_hat, "j_hat": j_hat, "origin": origin}[attr_])    # accepted: put the valid value back
+                if not (np.array_equal(np.asarray(cs.i_hat), i_hat) and np.array_equal(np.asarray(cs.j_hat), j_hat) and np.array_equal(np.asarray(cs.origin), origin)):
+                    chk.violation("cs-refused-assignment", "after assignments that were refused (raised) the coordinate system no longer holds its vectors",
+                                  dict(origin=origin, i_hat=i_hat, j_hat=j_hat, now_origin=np.asarray(cs.origin), now_i_hat=np.asarray(cs.i_hat),
+                                       now_j_hat=np.asarray(cs.j_hat), history="cs.i_hat = 1.5 * i_hat (raises); cs.j_hat = [0, 1] (raises); cs.origin = [1, 2] (raises); ..."), True)
+                    break
         shape = SHAPES[int(rng.integers(0, len(SHAPES)))]
         coords = dyadic(shape + (3,)) if exact else rng.normal(size=shape + (3,))
         # points whose coordinates are whole numbers may be stored in an integer array (np.arange(...).reshape(...)): same points
@@ -751,6 +769,22 @@ for it in range(6 if Q else 40):
                       dict(points=pp, kwargs=kw_, prefilled_with=fillv, first_wrong_entries=bad_[:5], got=[float(Do[tuple(b)]) for b in bad_[:5]],
                            expected=[float(brute[tuple(b)]) for b in bad_[:5]], predicate="out[i,j] = |p[i] - p[j]|"), True)
         break
+# coordinates in unusual storage (big-endian, half / extended precision): either refused (an exception) or the right table, never
+# a table that silently holds something else
+for dt_ in (">f8", np.float16, np.longdouble, np.float32):
+    pp_ = np.round(rng.normal(size=(5, 3)) * 4) / 4
+    qq_ = np.round(rng.normal(size=(4, 3)) * 4) / 4
+    try:
+        D_ = np.asarray(g.distance_pairwise(g.Points(pp_.astype(dt_)), g.Points(qq_.astype(dt_))), float)
+        err_ = None
+    except Exception as e_:      # noqa: BLE001
+        D_, err_ = None, type(e_).__name__
+    evaluations += 1
+    chk.count(distance_unusual_storage=f"{np.dtype(dt_).str}: {'raises ' + err_ if err_ else 'table'}")
+    brute_ = np.sqrt(((pp_[:, None, :] - qq_[None, :, :]) ** 2).sum(axis=-1))
+    if err_ is None and not (D_.shape == brute_.shape and np.allclose(D_, brute_, rtol=1e-3 if np.dtype(dt_).itemsize == 2 else 1e-6, atol=0)):
+        chk.violation("distance-unusual-storage", f"distance_pairwise on coordinates stored as {np.dtype(dt_).str} returns, without an error, a table that is not "
+                      "the distances of the pairs", dict(points1=pp_, points2=qq_, dtype=np.dtype(dt_).str, table=D_, brute_force=brute_), True)
 try:
     g.distance_pairwise(g.Points(np.zeros((2, 2, 3))), g.Points(np.zeros((2, 3))))
     chk.violation("distance-dim", "distance_pairwise accepts a 2-D point array", {}, True)
